@@ -114,6 +114,10 @@ type Interp struct {
 	unwind    int
 	fnSeen    map[*ssa.Function]bool
 	opaqueSeq int
+	allocLimit *Term
+	allocLimitName string
+	writeMark int
+	foreignWrites []string
 	config    map[string]bool
 	pcSet     map[int]bool
 	bind      map[int]*Term
@@ -1439,8 +1443,40 @@ func (in *Interp) reslice(arr *Cell, off int, ln, cp, lo, hi, max *Term) Value {
 	return &SliceV{arr: arr, off: off + l, len_: Sub(hi, intT(int64(l))), cap_: Sub(max, intT(int64(l)))}
 }
 
+const maxAllocElems = 1 << 22
+
+// noteAlloc records an allocation request of n elements. If the harness has
+// set an allocation limit, "n can exceed the limit" is decided by the solver
+// right here (before the executor would have to materialise the object); the
+// executor itself refuses objects above maxAllocElems.
 func (in *Interp) noteAlloc(n *Term) {
 	in.allocs = append(in.allocs, n)
+	n = in.simp(Resize(n, 64, true))
+	if in.allocLimit != nil && in.run != nil {
+		over := Slt(in.allocLimit, n)
+		if !over.IsFalse() {
+			r, m := in.checkSat(over, true)
+			if r == Sat {
+				where := ""
+				if in.cur != nil {
+					where = in.cur.fn.String() + " @ " + in.fset.Position(in.cur.pos).String()
+				}
+				in.violation("assert", in.allocLimitName, fmt.Sprintf("allocation of %s elements can exceed the limit %s at %s", in.show(n), in.show(in.allocLimit), where), m, nil)
+			} else if r == Unknown {
+				in.run.unknown++
+			}
+			in.assume(BNot(over))
+		}
+	}
+	if n.IsConst() {
+		if n.Int() > maxAllocElems {
+			in.unsupported("allocation of %d elements exceeds what the executor materialises", n.Int())
+		}
+		return
+	}
+	if in.branch(Slt(intT(maxAllocElems), n)) {
+		in.unsupported("allocation of more than %d elements (symbolic size)", maxAllocElems)
+	}
 }
 
 // ---------------------------------------------------------------------------
